@@ -94,3 +94,59 @@ func runOverlayTest(repo, testFile, runPattern string, timeout time.Duration) (f
 	}
 	return true, true, out
 }
+
+// witnessStatus runs the top-level test of a witness once (verbose) and answers for the test or sub-test named by run
+// ("TestX" or "TestX/sub name"): failed / built.
+var witnessCache = map[string]string{}
+
+func witnessStatus(repo, testFile, run string) (failed bool, built bool, out string) {
+	top, sub, _ := strings.Cut(run, "/")
+	key := testFile + "|" + top
+	o, ok := witnessCache[key]
+	if !ok {
+		ctxOut := runOverlayVerbose(repo, testFile, "^"+top+"$")
+		witnessCache[key] = ctxOut
+		o = ctxOut
+	}
+	if strings.Contains(o, "[build failed]") || strings.Contains(o, "[setup failed]") || !strings.Contains(o, "=== RUN") {
+		return false, false, o
+	}
+	name := top
+	if sub != "" {
+		name = top + "/" + strings.ReplaceAll(sub, " ", "_")
+	}
+	for _, line := range strings.Split(o, "\n") {
+		t := strings.TrimSpace(line)
+		if strings.HasPrefix(t, "--- FAIL: "+name+" ") {
+			return true, true, o
+		}
+		if strings.HasPrefix(t, "--- PASS: "+name+" ") {
+			return false, true, o
+		}
+	}
+	// the (sub-)test did not run: treat as not built, so that the finding is reported as unverifiable rather than stale
+	return false, false, "witness " + name + " did not run\n" + o
+}
+
+func runOverlayVerbose(repo, testFile, runPattern string) string {
+	dir, err := os.MkdirTemp("", "govc-replay")
+	if err != nil {
+		return err.Error()
+	}
+	defer os.RemoveAll(dir)
+	target := filepath.Join(repo, "zz_verif_replay_test.go")
+	ov := map[string]map[string]string{"Replace": {target: testFile}}
+	b, _ := json.Marshal(ov)
+	ovPath := filepath.Join(dir, "overlay.json")
+	os.WriteFile(ovPath, b, 0o644)
+	ctx, cancel := context.WithTimeout(context.Background(), 180*time.Second)
+	defer cancel()
+	cmd := exec.CommandContext(ctx, "go", "test", "-overlay", ovPath, "-vet=off", "-count=1", "-v", "-timeout", "120s", "-run", runPattern, ".")
+	cmd.Dir = repo
+	cmd.Env = append(os.Environ(), "GOFLAGS=-mod=mod", "GOPROXY=off", "GOSUMDB=off", "GOTOOLCHAIN=local")
+	var buf bytes.Buffer
+	cmd.Stdout = &buf
+	cmd.Stderr = &buf
+	_ = cmd.Run()
+	return buf.String()
+}
